@@ -20,11 +20,13 @@ Open Scope list_scope.
 """
 
 RULE = ("one case = one operation sequence on one reference/target pair: reference of 3..12 atoms (random trees, cyclic "
-        "graphs, chains, stars; 1..3 residues; geometry: 55% generic, 15% rod = all atoms on a lattice line on a dyadic grid, "
+        "graphs, chains, stars; 1..4 residues, residue names of a multi-residue molecule all different / all the same / repeated "
+        "in consecutive pairs - molecules with repeated names are built with MoleculeTop + Residue([AtomGro]) directly; geometry: 55% generic, 15% rod = all atoms on a lattice line on a dyadic grid, "
         "15% one or two anchors exactly collinear with their two lowest-index bonded neighbours, 15% collinear only in the "
         "arguments - the aligned branch of calcule_base), target of 1..20 atoms (1..3 residues, with/without velocities), scale in "
         "(0,2]; handles: 2..5 arguments (copy()/deep_copy() of the reference after a rigid motion, a dyadic translation, an "
-        "axis permutation, a deformation or a new random conformation, with their own gro residue numbers), the construction molecules themselves, 1..3 molecules "
+        "axis permutation, a deformation or a new random conformation, with their own gro residue numbers: all different, all equal as after `mol.resids = 7`, or equal in two consecutive "
+        "residues), the construction molecules themselves, 1..3 molecules "
         "of other species (other name, other atom name, other length, the target), every returned molecule; operations: "
         "call on a valid argument (repeats included), call on another species, call on a non-molecule, in-place coordinate "
         "changes of the construction reference / target / an argument / a previously returned molecule, residue renumbering "
@@ -152,17 +154,60 @@ def axis_rotation(rs):
 
 
 def split_residues(rs, n, nres, tag):
-    """contiguous blocks: [(atomname, resname, resid)]"""
+    """contiguous blocks: [(atomname, resname, resid)].  Residue names of a multi-residue molecule: all different, all
+    the same (a dimer/polymer of identical units) or repeated in consecutive pairs (A A B)."""
     nres = max(1, min(nres, n))
     cuts = sorted(rs.choice(np.arange(1, n), size=nres - 1, replace=False).tolist()) if nres > 1 else []
     atoms, r = [], 0
-    same_resname = nres == 1   # (System does not recognise a molecule made of equal-named residues)
+    naming = "same" if nres == 1 else str(rs.choice(["distinct", "same", "pairs"], p=[0.45, 0.35, 0.2]))
     for k in range(n):
         if r < len(cuts) and k == cuts[r]:
             r += 1
-        rn = tag if same_resname else "%s%d" % (tag[:3], r)
+        rn = tag if naming == "same" else "%s%d" % (tag[:3], r if naming == "distinct" else r // 2)
         atoms.append(["%s%d" % (tag[0], k), rn, r + 1])
     return atoms
+
+
+def repeated_resnames(atoms):
+    """two consecutive residues with the same residue name"""
+    res = []
+    for an, rn, rid in atoms:
+        if not res or res[-1][0] != rid:
+            res.append((rid, rn))
+    return any(a[1] == b[1] for a, b in zip(res, res[1:]))
+
+
+def gen_resids(rs, nres):
+    """gro residue numbers of an argument: all different, all the same (`mol.resids = 7`), or some consecutive ones equal"""
+    k = rs.randint(10)
+    if k < 6 or nres == 1:
+        return [int(x) for x in rs.randint(1, 9000, size=nres)]
+    if k < 8:
+        return [int(rs.randint(1, 9000))] * nres
+    base = rs.randint(1, 9000, size=nres)
+    j = int(rs.randint(nres - 1))
+    base[j + 1] = base[j]
+    return [int(x) for x in base]
+
+
+def build_molecule(molname, atoms, positions, bonds, resid_offset=0, direct=True):
+    """a Molecule with the given atoms [(atomname, resname, resid)] (contiguous residues), exact positions and bonds.
+    direct: MoleculeTop(itp) + Residue([AtomGro, ...]) through the public constructors (needed when consecutive residues
+    share their name: System does not recognise such a molecule in a .gro file); else through files (molgen)."""
+    if not direct:
+        return molgen.make_molecule(molname, atoms, positions, bonds, resid_offset=resid_offset)
+    from gaddlemaps.components import AtomGro, Molecule, MoleculeTop, Residue
+    itp = molgen.write_itp(molgen.fresh_path("itp", molname), molname, atoms, bonds)
+    mtop = MoleculeTop(itp)
+    residues, cur, last = [], [], None
+    for k, (an, rn, rid) in enumerate(atoms):
+        if last is not None and rid != last:
+            residues.append(Residue(cur))
+            cur = []
+        last = rid
+        cur.append(AtomGro([int(rid + resid_offset), rn, an, k + 1] + [float(x) for x in positions[k]]))
+    residues.append(Residue(cur))
+    return Molecule(mtop, residues)
 
 
 def lst(a):
@@ -173,7 +218,7 @@ def gen_static(rs, uid, k_only=False):
     n_ref = int(rs.randint(3, 13))
     n_tgt = int(rs.randint(1, 21))
     gkind, bonds = gen_graph(rs, n_ref)
-    nres_t = int(rs.choice([1, 1, 2, 3]))
+    nres_t = int(rs.choice([1, 1, 2, 2, 3, 4]))
     nres_t = min(nres_t, n_tgt)
     nres_r = nres_t if rs.randint(10) else int(rs.choice([1, 2, 3]))
     nres_r = min(nres_r, n_ref)
@@ -191,9 +236,9 @@ def gen_static(rs, uid, k_only=False):
     spec = {
         "uid": uid, "graph_kind": gkind, "geometry": geom,
         "ref": {"name": rname, "atoms": ref_atoms, "bonds": bonds, "pos": lst(ref_pos),
-                "resid_offset": int(rs.randint(0, 50))},
+                "resid_offset": int(rs.randint(0, 50)), "direct": bool(rs.randint(2))},
         "tgt": {"name": tname, "atoms": tgt_atoms, "bonds": [list(map(int, b)) for b in tbonds], "pos": lst(tgt_pos),
-                "resid_offset": int(rs.randint(0, 50)),
+                "resid_offset": int(rs.randint(0, 50)), "direct": bool(rs.randint(2)),
                 "vel": lst(rs.normal(size=(n_tgt, 3))) if rs.randint(3) == 0 else None},
         "scale": float(rs.choice([1.0, 0.5, float(rs.uniform(0.05, 2.0))])),
         "shared_top": False, "objs": [], "ops": [],
@@ -223,7 +268,7 @@ def gen_static(rs, uid, k_only=False):
         elif geom != "generic" and how in ("deform", "new") and rs.randint(2):
             p = collinearize(rs, p, bonds)
         objs.append({"kind": str(rs.choice(["copy", "deep"])), "pos": lst(p),
-                     "gro_resids": [int(x) for x in rs.randint(1, 9000, size=nres_r)] if rs.randint(4) else None})
+                     "gro_resids": gen_resids(rs, nres_r) if rs.randint(4) else None})
     if rs.randint(3) == 0:
         objs.append({"kind": "ref"})
     others = ["othername", "otheratoms", "shorter", "tgt"]
@@ -245,7 +290,7 @@ def gen_static(rs, uid, k_only=False):
         for _ in range(int(rs.randint(1, 4))):
             p = (tgt_pos - tgt_pos.mean(0)) @ rotmat(rs).T + rs.uniform(-50, 50, size=3)
             objs.append({"kind": str(rs.choice(["tcopy", "tdeep"])), "pos": lst(p),
-                         "gro_resids": [int(x) for x in rs.randint(1, 9000, size=nres_tt)] if rs.randint(4) else None})
+                         "gro_resids": gen_resids(rs, nres_tt) if rs.randint(4) else None})
     order = rs.permutation(len(objs))
     spec["objs"] = [objs[i] for i in order]
     return spec
@@ -279,14 +324,16 @@ class Session:
         from gaddlemaps import ExchangeMap
         self.spec = spec
         r, t = spec["ref"], spec["tgt"]
-        self.ref = molgen.make_molecule(r["name"], [tuple(a) for a in r["atoms"]], np.array(r["pos"]),
-                                        [tuple(b) for b in r["bonds"]], resid_offset=r["resid_offset"])
+        self.ref = build_molecule(r["name"], [tuple(a) for a in r["atoms"]], np.array(r["pos"]),
+                                  [tuple(b) for b in r["bonds"]], resid_offset=r["resid_offset"],
+                                  direct=r.get("direct", False) or repeated_resnames(r["atoms"]))
         if spec["shared_top"]:
             self.tgt = self.ref.copy()
             self.tgt.atoms_positions = np.array(t["pos"], dtype=float)
         else:
-            self.tgt = molgen.make_molecule(t["name"], [tuple(a) for a in t["atoms"]], np.array(t["pos"]),
-                                            [tuple(b) for b in t["bonds"]], resid_offset=t["resid_offset"])
+            self.tgt = build_molecule(t["name"], [tuple(a) for a in t["atoms"]], np.array(t["pos"]),
+                                      [tuple(b) for b in t["bonds"]], resid_offset=t["resid_offset"],
+                                      direct=t.get("direct", False) or repeated_resnames(t["atoms"]))
             if t.get("vel") is not None:
                 self.tgt.atoms_velocities = np.array(t["vel"], dtype=float)
         self.objs, self.kinds = [], []
@@ -356,7 +403,8 @@ class Session:
                 bonds = [b for b in bonds if b[0] < n and b[1] < n]
         elif k == "diffbonds":
             bonds = [tuple(b) for b in o["bonds"]]
-        return molgen.make_molecule(name, atoms, pos, bonds, resid_offset=r["resid_offset"])
+        return build_molecule(name, atoms, pos, bonds, resid_offset=r["resid_offset"],
+                              direct=r.get("direct", False) or repeated_resnames(atoms))
 
     def nonmol(self, what):
         if what == "none":
@@ -395,7 +443,10 @@ class Session:
                     return "ok", res
                 if k in ("renumref", "renumtgt", "renumobj"):
                     mol = self.ref if k == "renumref" else self.tgt if k == "renumtgt" else self.objs[op["h"]]
-                    mol.resids = [int(x) for x in op["rids"]]
+                    if op.get("int"):
+                        mol.resids = int(op["rids"][0])      # documented int form: every residue gets this number
+                    else:
+                        mol.resids = [int(x) for x in op["rids"]]
                     return "ok", None
                 mol = self.ref if k == "pokeref" else self.tgt if k == "poketgt" else self.objs[op["h"]]
                 mol[op["i"]].position = np.array(op["v"], dtype=float)
@@ -425,8 +476,12 @@ def next_op(rs, ses, allow_ambiguous):
     v = [float(x) for x in rs.uniform(-6, 6, size=3)]
 
     def rids_for(mol):
-        n = len(mol.resids) + (1 if rs.randint(12) == 0 else 0)           # sometimes a wrong length: ValueError
-        return [int(x) for x in rs.randint(1, 9000, size=n)]
+        n = len(mol.resids)
+        if rs.randint(12) == 0:
+            return {"rids": [int(x) for x in rs.randint(1, 9000, size=n + 1)]}     # a wrong length: ValueError
+        if rs.randint(5) == 0:
+            return {"rids": [int(rs.randint(1, 9000))] * n, "int": True}          # the int form `mol.resids = 7`
+        return {"rids": gen_resids(rs, n)}
     if ses.rev is not None and c < 0.18:
         rvalid = [i for i, k in enumerate(kinds) if k in RVALID]
         rother = [i for i, k in enumerate(kinds) if k not in RVALID]
@@ -440,12 +495,12 @@ def next_op(rs, ses, allow_ambiguous):
     if c < 0.60:
         return {"op": "nonmol", "what": str(rs.choice(NONMOL))}
     if c < 0.64:
-        return {"op": "renumref", "rids": rids_for(ses.ref)}
+        return dict({"op": "renumref"}, **rids_for(ses.ref))
     if c < 0.67:
-        return {"op": "renumtgt", "rids": rids_for(ses.tgt)}
+        return dict({"op": "renumtgt"}, **rids_for(ses.tgt))
     if c < 0.72 and pokeable:
         h = int(rs.choice(pokeable))
-        return {"op": "renumobj", "h": h, "rids": rids_for(ses.objs[h])}
+        return dict({"op": "renumobj", "h": h}, **rids_for(ses.objs[h]))
     if c < 0.78:
         return {"op": "pokeref", "i": int(rs.randint(len(ses.ref))), "v": v}
     if c < 0.84:
@@ -790,8 +845,16 @@ def oracle_sequence(spec, gen=None):
                                "raises TypeError: got %s" % (where, repr(val)[:60]))
                 stats["rejected"] += 1
                 continue
-            if exp_kind == "value":
+            n_res_target = len((ses.tgt if which == "call" else ses.ref).residues)
+            if len(arg_resids) != n_res_target:
                 stats["skipped"] += 1             # residue numbers cannot be transferred: outside the property
+                continue
+            if exp_kind == "value":
+                # same number of residues as the map's target, accepted species: nothing in the history may make a map
+                # (this one or one built now on the same objects) refuse it
+                bad.append("%s: a map built at this moment from the current construction molecules raises ValueError for an "
+                           "argument of the species with the target's number of residues%s" %
+                           (where, "" if status == "ok" else "; so does the map (%s)" % repr(val)[:60]))
                 continue
             if exp_kind != "ok":
                 bad.append("%s: a freshly built map raised %s" % (where, exp_kind))
@@ -860,6 +923,7 @@ def corpus_specs():
         out.append(spec)
     out.append(rod_witness())
     out += renumber_witnesses()
+    out.append(dimer_witness())
     return out
 
 
@@ -914,6 +978,29 @@ def renumber_witnesses():
              ops=[{"op": "callrev", "h": 0}, {"op": "call", "h": 1}, {"op": "callrev", "h": 0},
                   {"op": "call", "h": 1}, {"op": "callrev", "h": 0}])
     return [json.loads(json.dumps(a)), json.loads(json.dumps(b))]
+
+
+def dimer_witness():
+    """seeded/C04-9: reference and target made of two residues with the SAME residue name; one accepted argument carries the
+    same number in both residues ([7, 7], what `mol.resids = 7` gives).  Every argument must be mapped as before afterwards
+    (a helper setting the numbers through MoleculeTop.resids of the shared target topology merged the two residue runs
+    and every later call raised ValueError)."""
+    cg = np.array([[0.0, 0.0, 0.0], [0.3, 0.05, 0.0], [0.55, 0.3, 0.1], [0.85, 0.33, 0.2]])
+    aa = np.array([[-0.05, 0.02, 0.01], [0.1, 0.06, -0.03], [0.27, 0.0, 0.05], [0.5, 0.25, 0.12], [0.66, 0.36, 0.1],
+                   [0.9, 0.3, 0.24]])
+    th = 0.7
+    rot = np.array([[np.cos(th), -np.sin(th), 0], [np.sin(th), np.cos(th), 0], [0, 0, 1]])
+    return {"uid": 970, "graph_kind": "corpus", "geometry": "generic", "reverse": False, "shared_top": False, "scale": 0.5,
+            "ref": {"name": "DIMC", "atoms": [["B%d" % (k + 1), "MON", 1 + k // 2] for k in range(4)], "bonds": chain(4),
+                    "pos": lst(cg), "resid_offset": 0, "direct": True},
+            "tgt": {"name": "DIMA", "atoms": [["A%d" % (k + 1), "MON", 1 + k // 3] for k in range(6)], "bonds": chain(6),
+                    "pos": lst(aa), "resid_offset": 0, "direct": True, "vel": None},
+            "objs": [{"kind": "copy", "pos": lst(cg.dot(rot.T) + [1., 2., 3.]), "gro_resids": [11, 12]},
+                     {"kind": "copy", "pos": lst(cg.dot(rot) + [-2., 0.5, 1.]), "gro_resids": [21, 22]},
+                     {"kind": "deep", "pos": lst(cg + 4.0), "gro_resids": [7, 7]}],
+            "ops": [{"op": "call", "h": 0}, {"op": "call", "h": 2}, {"op": "call", "h": 1}, {"op": "call", "h": 0},
+                    {"op": "call", "h": 2}, {"op": "renumobj", "h": 1, "rids": [7, 7], "int": True}, {"op": "call", "h": 1},
+                    {"op": "call", "h": 0}]}
 
 
 def nontrivial(stats):
@@ -983,6 +1070,11 @@ def correspondence(ctx):
             hist_add(hist, "op_" + o["op"])
         if spec.get("reverse"):
             hist_add(hist, "forward_and_reverse_map")
+        if "atoms" in spec["tgt"] and repeated_resnames(spec["tgt"]["atoms"]):
+            hist_add(hist, "target_with_repeated_consecutive_resnames")
+        if any(o.get("gro_resids") and len(o["gro_resids"]) > 1 and
+               any(a == b for a, b in zip(o["gro_resids"], o["gro_resids"][1:])) for o in spec["objs"]):
+            hist_add(hist, "argument_with_equal_numbers_in_consecutive_residues")
         hist_add(hist, "multi_residue" if len(set(a[2] for a in spec["ref"]["atoms"])) > 1 else "single_residue")
         if spec["shared_top"]:
             hist_add(hist, "shared_topology")
@@ -1039,6 +1131,11 @@ def oracle(ctx, scale):
             hist_add(hist, "op_" + o["op"])
         if spec.get("reverse"):
             hist_add(hist, "forward_and_reverse_map")
+        if "atoms" in spec["tgt"] and repeated_resnames(spec["tgt"]["atoms"]):
+            hist_add(hist, "target_with_repeated_consecutive_resnames")
+        if any(o.get("gro_resids") and len(o["gro_resids"]) > 1 and
+               any(a == b for a, b in zip(o["gro_resids"], o["gro_resids"][1:])) for o in spec["objs"]):
+            hist_add(hist, "argument_with_equal_numbers_in_consecutive_residues")
         hist_add(hist, "n_tgt_%s" % ("1" if len(spec["tgt"]["atoms"]) == 1 else "2-5" if len(spec["tgt"]["atoms"]) <= 5 else "6-20"))
         ctx.count(("S", scale, k, json.dumps(spec["ops"])[:400]), nontrivial(stats))
         if k == 1:
